@@ -78,9 +78,14 @@ public:
 	
 	ScopedRemover & operator = (ScopedRemover && other) noexcept
 	{
-		dispatcher = std::move(other.dispatcher);
-		itemList = std::move(other.itemList);
-		other.reset();
+		if(this != &other) {
+			// Detach the listeners this remover is responsible for before taking over the others,
+			// otherwise they stay attached with no remover left to detach them.
+			reset();
+			dispatcher = std::move(other.dispatcher);
+			itemList = std::move(other.itemList);
+			other.reset();
+		}
 		return *this;
 	}
 	
@@ -219,9 +224,14 @@ public:
 
 	ScopedRemover & operator = (ScopedRemover && other) noexcept
 	{
-		callbackList = std::move(other.callbackList);
-		itemList = std::move(other.itemList);
-		other.reset();
+		if(this != &other) {
+			// Detach the listeners this remover is responsible for before taking over the others,
+			// otherwise they stay attached with no remover left to detach them.
+			reset();
+			callbackList = std::move(other.callbackList);
+			itemList = std::move(other.itemList);
+			other.reset();
+		}
 		return *this;
 	}
 
